@@ -19,6 +19,12 @@ def answers_agree(request, impl, model):
             return int(impl) <= int(model)
         except ValueError:
             return False
+    if proto == "parse":
+        # the mirror answers `none` where an opaque token (if-expression, type) swallows what follows:
+        # then the real parser must not read the printed tree back either
+        if model == "none":
+            return impl != request.split(" ", 1)[1]
+        return impl == model
     if proto == "select":
         # the thread pool reports in completion order: compare as multisets
         canon = "-" if model == "-" else ",".join(sorted(model.split(","), key=int))
@@ -90,15 +96,15 @@ PROPS["C04"] = {
 PROPS["C05"] = {
     "lean_modules": ["StyluaModel.Props.C05"],
     "theorem_prefix": "C05_",
-    "required_theorems": ["C05_single", "C05_hang"],
+    "required_theorems": ["C05_single", "C05_hang", "C05_tokens_determine_tree", "C05_parses_back"],
     "hx": [["c05"]],
     "level": "proof",
-    "level_text": "Proof: for the Lean model of check_excess_parentheses / format_expression_internal / hang_binop_expression / format_hanging_expression_ (all layout answers universally quantified as an oracle), every result is faithful (re-parses to itself under the precedence-climbing spec) and has the same meaning as the input, on the single-line and on the hanging path, for expressions of any size. The model is tied to expression.rs by a correspondence over all depth-2 trees x 12 syntactic contexts x 3 width classes plus seeded deeper trees.",
-    "level_note": "Trusted: Lean kernel; hand-written model (ParenRule.lean) tied by ~7e4 distinct membership requests per run; Spec.Prec.faithful validated (not proven) against full_moon round trips on the same trees; if-expressions are opaque in the model (their parts are separate entries); assert-over-unary corner of full_moon's `::` postfix is outside the validated domain.",
+    "level_text": "Proof: for the Lean model of check_excess_parentheses / format_expression_internal / hang_binop_expression / format_hanging_expression_ (all layout answers universally quantified as an oracle), every result is faithful, is read back as exactly itself by the Lean mirror of full_moon's precedence-climbing parser (proved: `faithful e -> parse (print e) = e`, any fuel) and has the same meaning as the input, on the single-line and on the hanging path, for expressions of any size. The model is tied to expression.rs by a correspondence over all depth-2 trees x 12 syntactic contexts x 3 width classes plus seeded deeper trees.",
+    "level_note": "Trusted: Lean kernel; hand-written model (ParenRule.lean) tied by ~7e4 distinct membership requests per run; `faithful` proved sufficient for the round trip through the Lean mirror of full_moon's expression parser (Spec/Parser.lean), the mirror compared with full_moon on the same trees (protocol `parse`); if-expressions are opaque in the model (their parts are separate entries).",
     "technique": "Lean 4 structural-induction proof over an oracle-parameterised model + exhaustive small-scope model/implementation correspondence",
     "rule": "ring 2: all expression trees of depth <= 2 over {or, <, .., +, ^} x {-, not} x {name, call, ...} with parentheses at every position (16 419 trees) + Luau assertion trees + seeded random trees of depth 3-5 over all 21 binary operators; each placed in 12 contexts (local, assignment, return, if/while/repeat condition, last/middle call argument, positional/named table field, index, prefix) at widths {120, 40, 10} (thorough adds 20, 1, 60); real output re-parsed with full_moon and its token sequence must be one the model admits (single-line result or hanging result for some oracle). distinct_nontrivial = distinct requests where the output tree differs from the input tree. ring 3: independent position-aware normal form (parentheses forgotten except truncation in multi-value positions) of input vs output.",
     "trusted_base": [
-        "Spec.Prec.faithful / okAt mirror full_moon parsers.rs (precedence climbing, unary precedence 11, `::` postfix) and are validated against full_moon round trips on every run, not proven",
+        "Spec/Parser.lean is a hand-written token-level mirror of full_moon's expression parser (parsers.rs 1644-1928: primary, `::` suffix, unary at precedence 11, precedence climbing); it is compared with full_moon on every run (protocol `parse`), not derived from it. `Spec.Prec.faithful` is PROVED sufficient for `parse (print e) = e` through that mirror (Lemmas/Parser.lean, ParserMono.lean); that it is also necessary is validated (protocol `faithful`, and exhaustively on 122 628 trees of depth <= 2 against the mirror), not proven. The lexical clause (`- -` printed as `--`) is below the token level.",
         "layout (Shape arithmetic, ~40 heuristics) is abstracted as a universally quantified oracle; which oracle the real run corresponds to is not modelled",
     ],
     "assumptions": ["if-expressions are opaque leaves of the expression model (right-open, never unparenthesised)"],
@@ -113,11 +119,11 @@ PIPE_RULE = ("ring 3 (closed set): the repository's 367 test inputs (+ committed
 PROPS["C01"] = {
     "lean_modules": ["StyluaModel.Props.C01"],
     "theorem_prefix": "C01_",
-    "required_theorems": ["C01_binops_spaced", "C01_binop_table_complete", "C01_unops_shape", "C01_no_minus_minus", "C01_expr_reparses", "C01_string_token"],
+    "required_theorems": ["C01_binops_spaced", "C01_binop_table_complete", "C01_unops_shape", "C01_no_minus_minus", "C01_expr_reparses", "C01_expr_parses_back", "C01_faithful_parses", "C01_parser_answers_right", "C01_string_token"],
     "hx": [["c05"], ["pipe"], ["slots"]],
     "level": "proof",
     "level_text": "Proof, partial: theorems cover the expression-level edit closure (every parenthesis edit yields a tree that re-parses to itself, for all oracles), the `- -` clause, string tokens staying one token, and the operator-text table regenerated from the compiled code on every run. The statement-level grammar and the claim that every separator emitted by the ~150 trivia sites is safe are carried by the correspondence and the closed-set re-parse oracle only.",
-    "level_note": "Trusted: Lean kernel; ParenRule/StrLit models tied by correspondence; Spec.Prec.faithful validated against full_moon; OpTables observed from the compiled formatter by the translator; the closed-set oracle uses full_moon itself as the parser the property names.",
+    "level_note": "Trusted: Lean kernel; ParenRule/StrLit models tied by correspondence; Spec/Parser.lean (mirror of full_moon's expression parser) compared with full_moon on every run; OpTables observed from the compiled formatter by the translator; the closed-set oracle uses full_moon itself as the parser the property names.",
     "technique": "Lean 4 proofs over oracle-parameterised model + translated operator table + re-parse oracle on closed corpus set",
     "rule": PIPE_RULE + SLOT_RULE + "ring 2: the `expr` correspondence of C05 (same request stream). distinct_nontrivial = distinct expr requests whose output tree differs from the input tree.",
     "trusted_base": ["statement-level grammar preservation is not modelled (tokens untouched => same parse) — covered by ring 3 only"],
@@ -127,7 +133,7 @@ PROPS["C01"] = {
 PROPS["C02"] = {
     "lean_modules": ["StyluaModel.Props.C02"],
     "theorem_prefix": "C02_",
-    "required_theorems": ["C02_expr", "C02_expr_at", "C02_cond", "C02_string_51", "C02_string_52", "C02_number"],
+    "required_theorems": ["C02_expr", "C02_expr_parsed", "C02_expr_at", "C02_cond", "C02_string_51", "C02_string_52", "C02_number"],
     "hx": [["c05"], ["pipe"], ["slots"]],
     "level": "proof",
     "level_text": "Proof, partial: theorems state that every modelled edit kind preserves meaning for inputs of any size and every layout oracle — parentheses (expression trees, truncation), condition parentheses, string literal values (5.1 and 5.2+ readings), number spelling. Statement order, call sugar and table separators are covered by the independent normal-form oracle on the closed corpus set and by the correspondence, not yet by theorems.",
@@ -233,7 +239,7 @@ PROPS["C11"] = {
 PROPS["C06"] = {
     "lean_modules": ["StyluaModel.Props.C06"],
     "theorem_prefix": "C06_",
-    "required_theorems": ["C06_strlit", "C06_number", "C06_semicolon", "C06_sort", "C06_comment_text", "C06_paren_not_idempotent"],
+    "required_theorems": ["C06_strlit", "C06_number", "C06_semicolon", "C06_sort", "C06_comment_text", "C06_paren_idem", "C06_paren_idem_faithful", "C06_paren_not_idempotent"],
     "hx": [["pipe"], ["slots"], ["c05"]],
     "level": "proof",
     "level_text": "Proof, partial — the property the technique serves least: idempotence theorems for every decision mechanism that has a model (string and number rewriting, semicolon decisions, sorted require groups, comment text), and a proven counterexample for the parenthesis rule (`(- -f())`, found by evaluating the model). Whether the second pass takes the same layout path as the first is a fact about Shape arithmetic and ~40 heuristics that are not modelled: it is checked on the closed sets only (corpus x 79 configurations, width sweep 1..130 of catalogue one-liners, comment-slot enumeration), whose unchanged-tree failures are listed exactly.",
